@@ -138,6 +138,7 @@ fn read_back(d: &MtuDiscovery, m0: &M) -> M {
 /// C13.a: one step of the MTU search from ANY state satisfying the invariant.
 /// op 0: poll_transmit(now, next_pn)   op 1: on_acked(space, pn, len)   op 2: on_probe_lost
 /// op 3: on_peer_max_udp_payload_size_received (only before probing started, as in the connection)
+/// op 4: reset(initial_mtu = `len`, min_mtu) as done by PathData::reset when the path changed
 pub fn search_step(
     current: u16, min_mtu: u16, enabled: bool, phase: u8, peer_max: u16, cfg_upper: u16, min_change: u16,
     lower: u16, upper: u16, last_probed: u16, in_flight: bool, in_flight_pn: u64, lost: u8,
@@ -145,7 +146,7 @@ pub fn search_step(
     op: u8, now_secs: u32, pn: u64, len: u16, space: u8, new_peer_max: u16,
 ) -> u32 {
     let m = M { current, min_mtu, enabled, phase, peer_max, cfg_upper, min_change, lower, upper, last_probed, in_flight, in_flight_pn, lost, complete_secs, interval_secs, cooldown_secs, ghost_min_peer };
-    if !inv(&m) || op > 3 || space > 2 {
+    if !inv(&m) || op > 4 || space > 2 {
         return 0;
     }
     let Some(now) = crate::verif::mk_instant(now_secs, 0) else { return 0 };
@@ -220,6 +221,30 @@ pub fn search_step(
             assert!(!n.in_flight && n.lost == lost + 1 && n.last_probed == last_probed);
             assert!(inv(&n));
             f |= 32;
+        }
+        4 => {
+            // PathData::reset passes (config.get_initial_mtu(), config.min_mtu): initial >= min_mtu
+            let initial = len;
+            if initial < min_mtu || initial > crate::MAX_UDP_PAYLOAD {
+                core::mem::forget(d);
+                return 0;
+            }
+            d.reset(initial, min_mtu);
+            let mut n = read_back(&d, &m);
+            // a peer limit learned earlier keeps applying to the fresh search AND to the estimate
+            if enabled {
+                assert!(n.phase == 0 && n.peer_max == peer_max);
+                assert!(n.current == initial.min(peer_max));
+            } else {
+                assert!(n.current == initial);
+                n.peer_max = crate::MAX_UDP_PAYLOAD; // the disabled state never stored one
+                n.ghost_min_peer = crate::MAX_UDP_PAYLOAD;
+            }
+            assert!(d.in_flight_mtu_probe().is_none());
+            assert!(n.current >= min_mtu.min(n.peer_max));
+            n.ghost_min_peer = n.ghost_min_peer.min(n.peer_max).max(1200);
+            assert!(inv(&n));
+            f |= 256;
         }
         _ => {
             if searching {
